@@ -268,6 +268,19 @@ func (f *Frame) loopCtx(b *ssa.BasicBlock, st *State, g string, override map[*ss
 					}
 				}
 			}
+			// otherwise: the map iterator of an enclosing loop, if unique
+			var found *SV
+			n := 0
+			for r, t := range st.iters {
+				if mt, ok := r.X.Type().Underlying().(*types.Map); ok {
+					n++
+					sv := SV{T: t, Sort: "(Array " + f.e.sortOf(mt.Key()) + " Bool)"}
+					found = &sv
+				}
+			}
+			if n == 1 {
+				return *found, true
+			}
 		}
 		return f.resolveLocal(name, b, st, override)
 	}
@@ -320,6 +333,7 @@ func (f *Frame) enterLoop(b *ssa.BasicBlock, li *loopInfo, st *State, g string, 
 	writes := f.loopWrites(li)
 	li.gh = e.freshConst(fmt.Sprintf("g_%s_loop%d", f.id, li.ordinal), "Bool")
 	li.iterDom = nil
+	li.mutexHeaps = nil
 	if f.top && f.mods != nil {
 		for _, h := range writes {
 			ff := f.frameFact(h, f.mods, f.entry, st, f.entry.alloc)
@@ -329,6 +343,15 @@ func (f *Frame) enterLoop(b *ssa.BasicBlock, li *loopInfo, st *State, g string, 
 	for _, h := range writes {
 		c := e.freshConst(h, e.heapSort[h])
 		ns.heap[h] = c
+	}
+	if e.lockDiscipline {
+		// lock discipline: the state of every guarding mutex is the same at each iteration (checked at the back edges)
+		for _, h := range writes {
+			if e.isMutexHeap(h) {
+				e.assume(eq(ns.H(h), st.H(h)))
+				li.mutexHeaps = append(li.mutexHeaps, h)
+			}
+		}
 	}
 	e.canonAfterHavoc(ns, writes)
 	na := e.freshConst("alloc", "Int")
@@ -433,6 +456,9 @@ func (f *Frame) closeLoop(from, header *ssa.BasicBlock, st *State) {
 			ff := f.frameFact(h, f.mods, f.entry, st, f.entry.alloc)
 			f.oblige("inv.keep", f.oblName(fmt.Sprintf("%s:inv%d#frame[%s].keep", funcDisplay(f.fn), li.ordinal, h)), eg, ff, "loop frame: only locations in the modifies clause change in heap "+h, nil, token.NoPos)
 		}
+	}
+	for _, h := range li.mutexHeaps {
+		f.oblige("lock", f.oblName(fmt.Sprintf("%s:loop%d.lock-state-kept", funcDisplay(f.fn), li.ordinal)), eg, eq(st.H(h), li.hdr.H(h)), "every mutex is in the same state at the end of a loop iteration as at its start", []string{"C11"}, token.NoPos)
 	}
 	for _, d := range li.iterDom {
 		f.oblige("inv.keep", f.oblName(fmt.Sprintf("%s:inv%d#iterdom.keep", funcDisplay(f.fn), li.ordinal)), eg, eq(sel(st.H(d.md), d.m), d.pre), "the domain of the ranged map does not change inside the loop", nil, token.NoPos)
@@ -673,3 +699,12 @@ func (f *Frame) execTypeAssert(b *ssa.BasicBlock, in *ssa.TypeAssert, st *State,
 type iterDom struct{ md, m, pre string }
 
 func gh0(f *Frame, li *loopInfo) string { return li.gh }
+
+func (e *Enc) isMutexHeap(h string) bool {
+	for _, gs := range e.specs.guards {
+		if strings.HasSuffix(h, "_"+gs.Struct+"$"+gs.Mutex) {
+			return true
+		}
+	}
+	return false
+}
